@@ -697,3 +697,116 @@ def rule_eof_once(prog):
     out.add("lexer::update", "old Eof is popped once and re-appended last", len(pops) == 1 and ok, c.loc(upd["sp"]),
             "%d pop(), concat ends with eof: %s" % (len(pops), ok))
     return out
+
+
+# ------------------------------------------------------------------ TOKCHANGE-ARGS (old/new epochs)
+
+def rule_tokchange_args(prog):
+    """TokenChange::{new_token_pos, deletes, overlaps} reason about positions in the *old* token vector in
+    absolute coordinates. A reused node's range is relative to its enclosing Reference, so whatever reaches these
+    methods must have been made absolute with `get_old_reference()` (sum of the old Reference offsets)."""
+    out = Out("TOKCHANGE-ARGS")
+    c = prog.front
+    TC = "spl_frontend::tokens::TokenChange"
+    bodies = [b for b in c.bodies if c.file_of(b["sp"]).endswith(("parser.rs", "parser/utility.rs")) and b["k"] in ("fn", "assoc_fn")]
+
+    def defs(body):
+        d = {}
+        for l in hir.nodes(body["body"], "Let"):
+            if l.get("init") is not None:
+                for bd in hir.pat_bindings(l["pat"]):
+                    d[bd["id"]] = (l["pat"], l["init"])
+        return d
+
+    def params(body):
+        res = {}
+        for i, p in enumerate(body["params"]):
+            if p.get("k") == "Binding":
+                res[p["id"]] = i
+        return res
+
+    def has_old_ref(e):
+        return any(n.get("k") == "MethodCall" and n["m"] == "get_old_reference" for n in hir.nodes(e))
+
+    def old_abs(e, body, dmap, pmap, depth=0):
+        """True / False / ('param', index)"""
+        e = hir.strip_ref(e)
+        k = e.get("k")
+        if depth > 12:
+            return False
+        if k == "Path" and e["res"].get("k") == "Local":
+            i = e["res"]["id"]
+            if i in pmap:
+                return ("param", pmap[i])
+            if i in dmap:
+                return old_abs(dmap[i][1], body, dmap, pmap, depth + 1)
+            return False
+        if k == "MethodCall":
+            if e["m"] == "shift" and e["args"]:
+                if has_old_ref(e["args"][0]):
+                    return True
+                return False
+            if e["m"] in ("clone", "to_owned", "min", "max"):
+                return old_abs(e["recv"], body, dmap, pmap, depth + 1)
+            return False
+        if k == "Binary" and e["op"] in ("+", "-"):
+            if has_old_ref(e):
+                return True
+            l, r = old_abs(e["l"], body, dmap, pmap, depth + 1), old_abs(e["r"], body, dmap, pmap, depth + 1)
+            if hir.lit_value(e["r"]) is not None:
+                return l
+            if hir.lit_value(e["l"]) is not None:
+                return r
+            return False
+        if k == "Field" and e["name"] in ("start", "end"):
+            base = hir.strip_ref(e["base"])
+            if (place(base) or "").endswith(".deletion_range"):
+                return True
+            return old_abs(e["base"], body, dmap, pmap, depth + 1)
+        if k == "Struct" and (e.get("adt") or "").startswith("core::ops::range::Range"):
+            vals = [old_abs(f["e"], body, dmap, pmap, depth + 1) for f in e["fields"]]
+            if all(v is True for v in vals):
+                return True
+            ps = [v for v in vals if isinstance(v, tuple)]
+            if ps and all(v is True or isinstance(v, tuple) for v in vals) and len(set(ps)) == 1:
+                return ps[0]
+            return False
+        return False
+
+    # call graph among the local functions (by def path)
+    by_path = {b["p"]: b for b in bodies}
+    n = 0
+
+    def check_arg(arg, body, label, loc, seen):
+        nonlocal n
+        dmap, pmap = defs(body), params(body)
+        v = old_abs(arg, body, dmap, pmap)
+        if isinstance(v, tuple):
+            # obligation moves to every call site of `body`
+            idx = v[1]
+            sites = []
+            for cb in bodies:
+                for call in hir.nodes(cb["body"], "Call"):
+                    d = hir.path_def(call["f"])
+                    if d and d["p"] == body["p"] and idx < len(call["args"]):
+                        sites.append((cb, call))
+            if not sites or (body["p"], idx) in seen:
+                n += 1
+                out.add(body["d"], label, None, loc, "parameter never bound at a visible call site")
+                return
+            for cb, call in sites:
+                check_arg(call["args"][idx], cb, label + " <- " + cb["d"].rsplit("::", 1)[-1], c.loc(call["sp"]), seen | {(body["p"], idx)})
+            return
+        n += 1
+        out.add(body["d"], label, bool(v), loc,
+                "this position reaches a TokenChange query about the *old* token vector without having been made "
+                "absolute with `get_old_reference()`: it is relative to the enclosing Reference and only right when "
+                "the node happens to sit in the first declaration (origin 0)")
+
+    for b in bodies:
+        for call in hir.nodes(b["body"], "MethodCall"):
+            if call["m"] in ("new_token_pos", "deletes", "overlaps") and hir.adt_path(c, call["recv"]["t"]) == TC and call["args"]:
+                check_arg(call["args"][0], b, "argument of TokenChange::%s is an absolute old position" % call["m"], c.loc(call["sp"]), frozenset())
+    if n < 3:
+        out.missing("TokenChange::{new_token_pos,deletes,overlaps} call sites")
+    return out
